@@ -47,7 +47,17 @@ GenPost ==
   LET lower == SetToSeq(FOSentUpTo(Par.n - 1))
       top == SetToSeq(FON(Par.n, {}))
       pick == SelectSeq([j \in 1..Len(top) |-> IF j % Par.stride = 0 THEN top[j] ELSE <<>>], LAMBDA x : x # <<>>)
-      base == lower \o pick
+      \* sibling (non-nested) quantifiers over the SAME variable: legal, and a classic scope-leak trap
+      xv == GVars[1]
+      bodies == SetToSeq({b \in FON(0, {xv}) : xv \in FreeVars(b)})
+      sib == [j \in 1..(Len(bodies) * 2) |->
+                LET b1 == bodies[((j - 1) % Len(bodies)) + 1]
+                    b2 == bodies[((j * 7) % Len(bodies)) + 1]
+                    op == IF j % 2 = 0 THEN "Conjunction" ELSE "Conditional"
+                    q1 == IF j % 3 = 0 THEN "Existential" ELSE "Universal"
+                    q2 == IF j % 5 < 2 THEN "Existential" ELSE "Universal"
+                IN <<"O", op, <<<<"Q", q1, xv, b1>>, <<"Q", q2, xv, b2>>>>>>]
+      base == lower \o pick \o sib
       sents == [j \in 1..Len(base) |-> Reop(Decorate(base[j], j % 7), j)]
       strings(s) == <<[notation |-> "polish", str |-> Render(PolishTok(Tab.polish, s), Tab.polish.ws, 0)],
                       [notation |-> "polish", str |-> Render(PolishTok(Tab.polish, s), Tab.polish.ws, 2)]>>
